@@ -41,6 +41,11 @@ type c02Input struct {
 	Roots2        string `json:"roots2,omitempty"`
 	ClockYears    int    `json:"clock_years,omitempty"`
 	ClockMin      int    `json:"clock_min,omitempty"`
+	// resume: PtrCache: the client's session cache is a user-supplied one that keeps the object it is handed;
+	// ZeroMaster: the peer that tries to resume does not know the master secret and bets on 48 zero bytes
+	// (Fin "wrong" in the model's terms: its Finished is not computed from the session's master secret)
+	PtrCache   bool `json:"ptr_cache,omitempty"`
+	ZeroMaster bool `json:"zero_master,omitempty"`
 }
 
 type c02View struct {
@@ -363,6 +368,12 @@ func runC02(p params) error {
 			c02Resume(out, c02Input{Stack: st, Suite: su, Chain: "expired", SKX: "ok", Fin: "ok", Resume: "cross-config"})
 			c02Resume(out, c02Input{Stack: st, Suite: su, Chain: "mixed-ca-sig", SKX: "ok", Fin: "ok", Resume: "cross-config"})
 			c02Resume(out, c02Input{Stack: st, Suite: su, Chain: "mixed-ca", SKX: "ok", Fin: "ok", Resume: "cross-config"})
+			// a peer that echoes the session identifier (it travels in clear) without knowing the master secret, against
+			// clients whose cache is the library's own and a user-supplied one that keeps the object it is handed
+			for _, pc := range []bool{false, true} {
+				c02Resume(out, c02Input{Stack: st, Suite: su, Chain: "srv", SKX: "ok", Fin: "wrong", Resume: "cross-config", FirstVerifies: true, PtrCache: pc, ZeroMaster: true})
+				c02Resume(out, c02Input{Stack: st, Suite: su, Chain: "srv", SKX: "ok", Fin: "ok", Resume: "cross-config", FirstVerifies: true, PtrCache: pc})
+			}
 			// the session is created by a VERIFYING configuration; the configuration that offers it verifies too, but
 			// under another name, other roots or a later clock (and, as a control, under the same settings)
 			for _, v := range []c02Input{{Name: "other.test"}, {Roots2: "other"}, {TimeShift: 50}, {}} {
@@ -371,7 +382,12 @@ func runC02(p params) error {
 			}
 		}
 	}
+	// configurations used through Config.Clone carry the fields this property depends on
+	cloneCases(out, []string{"tlcp", "dtlcp"}, map[string][]string{"tlcp": c02CloneFields, "dtlcp": c02CloneFields})
 	return out.Finish()
 }
 
 func init() { register("C02", runC02) }
+
+// the fields of a client configuration that decide how a server is authenticated
+var c02CloneFields = []string{"ServerName", "RootCAs", "InsecureSkipVerify", "Time", "VerifyPeerCertificate", "VerifyConnection", "CipherSuites", "SessionCache"}
